@@ -5,6 +5,7 @@ From RecordUpdate Require Import RecordSet.
 Import RecordSetNotations.
 From EV Require Import Base.Str Model.Value Model.Keyspace Model.Reply Model.Prog.
 From EV Require Import Model.CmdList Model.CmdHash Model.CmdSet Model.CmdZSet Model.CmdGeneric Model.CmdString.
+From EV Require Import Model.CmdZRand Model.CmdKeyspace.
 Local Open Scope Z_scope.
 
 Record world := World {
@@ -21,7 +22,8 @@ Definition first_some {A} (l : list (option A)) : option A :=
 
 Definition handler_of (name : string) : option (list string -> prog reply) :=
   first_some [list_handler name; hash_handler name; set_handler default_pick name; zset_handler name;
-              generic_handler name; string_handler name].
+              generic_handler name; string_handler name;
+              zrand_handler default_zpick name; keyspace_handler default_keysource name].
 
 (** Connection-level commands ([internal/modules/connection/commands.go]): they act on the
     connection table, not on the keyspace.  Connection 0 is the embedded caller, whose database is
